@@ -98,6 +98,9 @@ FSetValue(a, v) ==
 \* overwrite a (failing) formula cell with a constant: set_value on it
 Repair(c, v) ==
   /\ c \in Breakable /\ c \in built /\ ~IsOvr(c)
+  \* an overwritten cell keeps its formula: changing one of its precedents
+  \* (also by overwriting that one) would reset it and bring the formula back
+  /\ \A x \in DOMAIN ovr : c \notin AncOf(x)
   /\ IF cache[c] = v
      THEN UNCHANGED <<cache, changed>>           \* same value: set_value does nothing
      ELSE LET c1 == [cache EXCEPT ![c] = v]
